@@ -292,12 +292,12 @@ Definition slot_view (o : option exch) : option (N * role) :=
 (** the (exchange id, role) table of a session, what routing decisions read *)
 Definition table (s : session) : list (option (N * role)) := map slot_view (s_exchs s).
 
-Lemma session_post_recv_fields s m now s' r :
-  session_post_recv s m now = (s', r) ->
+Lemma session_post_recv_raw_fields s m now s' r :
+  session_post_recv_raw s m now = (s', r) ->
   s_id s' = s_id s /\ s_key s' = s_key s /\ s_enc s' = s_enc s /\ s_expired s' = s_expired s /\
   s_group s' = s_group s.
 Proof.
-  unfold session_post_recv.
+  unfold session_post_recv_raw.
   destruct (post_recv (s_win s) (m_ctr m) (s_enc s) false) as [w' fresh].
   destruct fresh; cbn [negb].
   2:{ intros H; inversion H; subst. cbn. tauto. }
@@ -327,8 +327,8 @@ Proof.
 Qed.
 
 (** The complete characterisation of the routing decision. *)
-Lemma session_post_recv_cases s m now s' r :
-  session_post_recv s m now = (s', r) ->
+Lemma session_post_recv_raw_cases s m now s' r :
+  session_post_recv_raw s m now = (s', r) ->
   snd (post_recv (s_win s) (m_ctr m) (s_enc s) false) = false /\ r = Err ERR_DUPLICATE /\ s_exchs s' = s_exchs s
   \/
   snd (post_recv (s_win s) (m_ctr m) (s_enc s) false) = true /\
@@ -352,7 +352,7 @@ Lemma session_post_recv_cases s m now s' r :
              exch_post_recv (mkExch (m_exid m) RespPending rm_new 0) m now = (e', Ok tt) /\
              r = Ok true /\ s_exchs s' = set_nth l' i (Some e')))).
 Proof.
-  unfold session_post_recv.
+  unfold session_post_recv_raw.
   destruct (post_recv (s_win s) (m_ctr m) (s_enc s) false) as [w' fresh]. cbn [snd].
   destruct fresh; cbn [negb].
   2:{ intros H; inversion H; subst. left. cbn. tauto. }
@@ -375,4 +375,71 @@ Proof.
       intros H; inversion H; subst. right. right. right. cbn.
       repeat split; try reflexivity. exists l', i, e'. tauto.
     + intros H; inversion H; subst. right. right. left. cbn. tauto.
+Qed.
+
+(** ** the R / A flags of group data messages are not honoured *)
+
+Lemma effective_fields s m :
+  m_key (effective s m) = m_key m /\ m_enc (effective s m) = m_enc m /\
+  m_group (effective s m) = m_group m /\ m_ctr (effective s m) = m_ctr m /\
+  m_exid (effective s m) = m_exid m /\ m_init (effective s m) = m_init m /\
+  m_op (effective s m) = m_op m.
+Proof. unfold effective. destruct (s_group s && negb (m_ctl m)); cbn; tauto. Qed.
+
+Lemma effective_plain s m : s_group s = false -> effective s m = m.
+Proof. intros H. unfold effective. rewrite H. reflexivity. Qed.
+
+Lemma find_index_ext {A} (p q : A -> bool) l :
+  (forall x, p x = q x) -> find_index p l = find_index q l.
+Proof.
+  intros H. induction l as [|a t IH]; [reflexivity|]. cbn [find_index]. rewrite H, IH. reflexivity.
+Qed.
+
+Lemma find_exch_same l m m' :
+  m_exid m' = m_exid m -> m_init m' = m_init m -> find_exch l m' = find_exch l m.
+Proof.
+  intros E1 E2. unfold find_exch.
+  rewrite (find_index_ext (slot_is_for_rx m') (slot_is_for_rx m)); [reflexivity|].
+  intros [e|]; [|reflexivity]. cbn. unfold exch_is_for_rx. rewrite E1, E2. reflexivity.
+Qed.
+
+Lemma find_exch_effective s l m : find_exch l (effective s m) = find_exch l m.
+Proof. destruct (effective_fields s m) as [_ [_ [_ [_ [E1 [E2 _]]]]]]. apply find_exch_same; assumption. Qed.
+
+Lemma session_post_recv_fields s m now s' r :
+  session_post_recv s m now = (s', r) ->
+  s_id s' = s_id s /\ s_key s' = s_key s /\ s_enc s' = s_enc s /\ s_expired s' = s_expired s /\
+  s_group s' = s_group s.
+Proof. unfold session_post_recv. apply session_post_recv_raw_fields. Qed.
+
+(** the characterisation of [Session::post_recv]; the reliability layer sees
+    [effective s m], everything else reads fields that [effective] leaves alone *)
+Lemma session_post_recv_cases s m now s' r :
+  session_post_recv s m now = (s', r) ->
+  snd (post_recv (s_win s) (m_ctr m) (s_enc s) false) = false /\ r = Err ERR_DUPLICATE /\ s_exchs s' = s_exchs s
+  \/
+  snd (post_recv (s_win s) (m_ctr m) (s_enc s) false) = true /\
+  ( (exists i e, find_exch (s_exchs s) m = Some (i, e) /\
+       ( (exists e', exch_post_recv e (effective s m) now = (e', Ok tt) /\ r = Ok false /\
+                     s_exchs s' = set_nth (s_exchs s) i (Some e'))
+         \/ (r <> Ok false /\ r <> Ok true /\ s_exchs s' = s_exchs s) ))
+    \/
+    (find_exch (s_exchs s) m = None /\
+       ( (m_init m = false \/ is_new_exchange (m_op m) = false) /\ r = Err ERR_NO_EXCHANGE /\ s_exchs s' = s_exchs s
+         \/
+         m_init m = true /\ is_new_exchange (m_op m) = true /\ s_expired s = true /\
+           r = Err ERR_NO_SESSION /\ s_exchs s' = s_exchs s
+         \/
+         m_init m = true /\ is_new_exchange (m_op m) = true /\ s_expired s = false /\
+           add_exch (s_exchs s) (mkExch (m_exid m) RespPending rm_new 0) = None /\
+           r = Err ERR_NO_SPACE_EXCHANGES /\ s_exchs s' = s_exchs s
+         \/
+         m_init m = true /\ is_new_exchange (m_op m) = true /\ s_expired s = false /\
+           exists l' i e', add_exch (s_exchs s) (mkExch (m_exid m) RespPending rm_new 0) = Some (l', i) /\
+             exch_post_recv (mkExch (m_exid m) RespPending rm_new 0) (effective s m) now = (e', Ok tt) /\
+             r = Ok true /\ s_exchs s' = set_nth l' i (Some e')))).
+Proof.
+  unfold session_post_recv. intros H. apply session_post_recv_raw_cases in H.
+  destruct (effective_fields s m) as [_ [_ [_ [Ec [Ex [Ei Eo]]]]]].
+  rewrite Ec, Ex, Ei, Eo, find_exch_effective in H. exact H.
 Qed.
